@@ -50,6 +50,32 @@ def check(run):
             scs.append(h.build_multi(faults, hs))
             multi += 1
             kinds["multi"] = kinds.get("multi", 0) + 1
+    # an UNEXPECTED reply: decodable, a member of the exchange's reply set, but not what this exchange may be answered with — the
+    # query for a dangling pre-authorisation answered by an intermediate status / a completion (the client's UnexpectedPacket).
+    # The exchange ends there; whatever the terminal still sends must not be read as the replies to the next command: the next
+    # operation runs on a NEW connection.
+    for unwanted, tail_packets in ((S.intermediate(), [S.pr_abort(0xb8, 0xFFFF)]), (S.intermediate(0x0a), []),
+                                   (S.completion(), []), (S.status_info({0x27: 0}), [S.completion()])):
+        for first_op in ("configure", "cancel"):
+            sc = cc.Scenario(S, {"max": 2}).start(); cfg = sc.cfg
+            if first_op == "configure":
+                sc.ops.append("configure")
+                sc.exchange(S.sysinfo_req(), [S.sysinfo(cfg["serial"], cfg["tid"])])
+                sc.exchange(S.initialization(cfg["pw"]), [S.completion()])
+            else:
+                sc.ops.append("begin:41"); sc.exchange(S.reservation(cfg["cur"], cfg["amount"], "A"), [S.status_info({0x27: 0, 0x87: 321}), S.completion()])
+                sc.exp_results.append("Ok")
+                sc.ops.append("cancel:41"); sc.exchange(S.preauth_reversal(cfg["cur"], 321), [S.completion()])
+            sc.exchange(S.pending_query(), [unwanted])
+            sc.feed(*tail_packets)                       # what the terminal goes on to send: nobody may read it as a reply
+            sc.exp_results.append("Err:UnexpectedPacket")
+            sc.ops.append("read_card")
+            sc.new_conn()
+            sc.handshake()
+            sc.exchange(S.read_card_req(cfg["rct"]), [S.status_info({0x27: 0, 0x06: {"uuid": "04a1b2c3d4e5f6"}})])
+            sc.exp_results.append("Ok:Member:04A1B2C3D4E5F6")
+            scs.append(sc)
+            kinds["unwanted-reply"] = kinds.get("unwanted-reply", 0) + 1
     cases, mo, io = run_scenarios(run, scs, "c09")
     diffs = judge(run, scs, cases, mo, io,
                   "after a failed exchange (close, garbage, NACK, silence, truncated packet) nothing more is written to that connection; the retry runs on a NEW "
